@@ -103,7 +103,44 @@ def _lib():
     return bitcoin, SA, B
 
 
+_PREV = {}         # results handed out by the previous call, re-examined after the current one
+_VALID = {}
+
+
+def _valid_for(hrp):
+    v = _VALID.get(hrp)
+    if v is None:
+        prog = C.fill(20, 7)
+        v = _VALID[hrp] = (R.encode(hrp, 0, prog), prog)
+    return v
+
+
 def judge(hrp, s, wrapper=True, must_reject=False, what='', subs=None, base=None):
+    prev_dec, prev_obj = _PREV.get('decode'), _PREV.get('obj')
+    r = _judge(hrp, s, wrapper, must_reject, what, subs, base)
+    bitcoin, SA, B = _lib()
+    # results handed out by the previous call must not have changed under the caller's hands (returned lists / objects
+    # are the caller's own values)
+    prev = prev_dec
+    if prev is not None:
+        got, want, ps = prev
+        if got[0] != want[0] or bytes(got[1]) != want[1]:
+            raise Viol('the result of an earlier segwit_addr.decode(%r) changed after a later call (%s %r)' % (ps, what, s), want, (got[0], bytes(got[1]).hex()))
+    prev = prev_obj
+    if prev is not None:
+        obj, want, ps = prev
+        if (obj.witver, bytes(obj)) != want:
+            raise Viol('an earlier CBech32Data(%r) object changed after a later call (%s %r)' % (ps, what, s), want, (obj.witver, bytes(obj).hex()))
+    if r == 'reject' and len(hrp) <= 40:
+        # a refused string leaves nothing behind: a valid address is decoded right after it
+        v, prog = _valid_for(hrp)
+        g = SA.decode(hrp, v)
+        if g[0] != 0 or g[1] is None or bytes(g[1]) != prog:
+            raise Viol('a valid address decoded right after the refused string %r (%s) is not decoded correctly' % (s, what), (0, prog.hex()), g)
+    return r
+
+
+def _judge(hrp, s, wrapper=True, must_reject=False, what='', subs=None, base=None):
     bitcoin, SA, B = _lib()
     if subs is not None and any(R.substitution_syndrome(len(base), [(p, base[p], s[p]) for p in subs])):
         want = None       # checksum cannot hold (linearity of the BCH code); no need for the full decoder
@@ -121,6 +158,7 @@ def judge(hrp, s, wrapper=True, must_reject=False, what='', subs=None, base=None
     else:
         if got[0] != want[0] or got[1] is None or bytes(got[1]) != want[1]:
             raise Viol('%s segwit_addr.decode(%r, %r)' % (what, hrp, s), (want[0], want[1]), got)
+        _PREV['decode'] = (got, want, s)
     if wrapper and hrp in HRP_CHAIN:
         bitcoin.SelectParams(HRP_CHAIN[hrp])
         try:
@@ -134,6 +172,8 @@ def judge(hrp, s, wrapper=True, must_reject=False, what='', subs=None, base=None
             raise Viol('%s CBech32Data(%r) on %s' % (what, s, HRP_CHAIN[hrp]), want, r)
         if want is not None and str(obj) != s.lower():
             raise Viol('%s str(CBech32Data(%r))' % (what, s), s.lower(), str(obj))
+        if want is not None:
+            _PREV['obj'] = (obj, want, s)
     return 'accept' if want is not None else 'reject'
 
 
